@@ -160,9 +160,13 @@ class RelativeSequence(AbstractSequence):
         for channel in open_messages.keys():
             for key in open_messages[channel].keys():
                 note_list = open_messages[channel].get(key, [])
-                for msg in note_list:
-                    if msg in messages_normalized:
-                        messages_normalized.remove(msg)
+                # Only the first note-on of a still open stack was emitted; it is the last occurrence of its message
+                # object (an object can occur several times, e.g. after concatenating a sequence with itself)
+                for msg in note_list[:1]:
+                    for i in range(len(messages_normalized) - 1, -1, -1):
+                        if messages_normalized[i] is msg:
+                            del messages_normalized[i]
+                            break
 
         self._messages = messages_normalized
 
